@@ -227,6 +227,9 @@ def single_edits(tokens, vocab, r, limit=None):
         out.append(("dup", i, tokens[:i + 1] + tokens[i:]))
         if i + 1 < n:
             out.append(("swap", i, tokens[:i] + [tokens[i + 1], tokens[i]] + tokens[i + 2:]))
+        if tokens[i].swapcase() != tokens[i]:
+            # letter case: immaterial in identifiers and tags, data in strings (a value from a closed list stops being one)
+            out.append(("case", i, tokens[:i] + [tokens[i].swapcase()] + tokens[i + 1:]))
         for v in (vocab if limit is None else r.sample(vocab, min(limit, len(vocab)))):
             if v != tokens[i]:
                 out.append(("rep", i, tokens[:i] + [v] + tokens[i + 1:]))
